@@ -41,3 +41,10 @@ Check (C13_built_record_inserts : forall name ttl t rd rr p v it sec s',
     pp_offset_edns (fst s') = pp_offset_edns f /\ pp_edns_count (fst s') = pp_edns_count f /\
     pp_maybe_compressed (fst s') = false /\ pp_cached (fst s') = None).
 Print Assumptions C13_built_record_inserts.
+Check (C13_built_name_record_is_insertable : forall t name ttl target rr,
+  build_name_rr t name ttl target = Ok rr -> is_name_type t = true -> (ttl < 4294967296)%N ->
+  exists ls ls2, Forall label_ok ls /\ Forall label_ok ls2 /\
+    (name = dotted ls \/ name = dots ls \/ (name = [46%N] /\ ls = [])) /\
+    (target = dotted ls2 \/ target = dots ls2 \/ (target = [46%N] /\ ls2 = [])) /\
+    rr = plain_record (name_rec ls t CLASS_IN ttl ls2) /\ plain_rr_ok (name_rec ls t CLASS_IN ttl ls2)).
+Print Assumptions C13_built_name_record_is_insertable.
